@@ -178,6 +178,14 @@ func (rm *ResponseManager) abortRequest(ctx context.Context, requestID graphsync
 			return nil
 		})
 	}
+	if err == queryexecutor.ErrNetworkError {
+		// a network failure closes the response stream, so it decides how the response ends: it must not
+		// be lost behind a signal (a cancel command, say) the executor has not picked up yet
+		select {
+		case <-response.signals.ErrSignal:
+		default:
+		}
+	}
 	select {
 	case response.signals.ErrSignal <- err:
 	default:
